@@ -62,6 +62,8 @@ fn ring_verify_csr(f: &CsrFields) -> Option<bool> {
 			&rs::ECDSA_P256_SHA256_ASN1
 		} else if has(&f.sig_alg, &ecdsa_sha(3)) {
 			&rs::ECDSA_P256_SHA384_ASN1
+		} else if (11u8..=13).any(|n| has(&f.sig_alg, &rsa_sha(n))) || has(&f.sig_alg, &ed) {
+			return Some(false);
 		} else {
 			return None;
 		}
@@ -70,6 +72,8 @@ fn ring_verify_csr(f: &CsrFields) -> Option<bool> {
 			&rs::ECDSA_P384_SHA256_ASN1
 		} else if has(&f.sig_alg, &ecdsa_sha(3)) {
 			&rs::ECDSA_P384_SHA384_ASN1
+		} else if (11u8..=13).any(|n| has(&f.sig_alg, &rsa_sha(n))) || has(&f.sig_alg, &ed) {
+			return Some(false);
 		} else {
 			return None;
 		}
@@ -80,12 +84,21 @@ fn ring_verify_csr(f: &CsrFields) -> Option<bool> {
 			&rs::RSA_PKCS1_2048_8192_SHA384
 		} else if has(&f.sig_alg, &rsa_sha(13)) {
 			&rs::RSA_PKCS1_2048_8192_SHA512
+		} else if (2u8..=4).any(|n| has(&f.sig_alg, &ecdsa_sha(n))) || has(&f.sig_alg, &ed) {
+			return Some(false);
 		} else {
 			return None;
 		}
 	} else if has(&f.spki_alg, &ed) && has(&f.sig_alg, &ed) {
 		&rs::ED25519
 	} else {
+		// a recognised key type under a recognised signature identifier of another family:
+		// no signature scheme verifies that pairing, so the request cannot be a proof of possession
+		let known_key = has(&f.spki_alg, &p256) || has(&f.spki_alg, &p384) || has(&f.spki_alg, &rsa) || has(&f.spki_alg, &ed);
+		let known_sig = (2u8..=4).any(|n| has(&f.sig_alg, &ecdsa_sha(n))) || (11u8..=13).any(|n| has(&f.sig_alg, &rsa_sha(n))) || has(&f.sig_alg, &ed);
+		if known_key && known_sig {
+			return Some(false);
+		}
 		return None;
 	};
 	Some(rs::UnparsedPublicKey::new(alg, &f.key_bits).verify(&f.info, &f.sig).is_ok())
@@ -111,6 +124,96 @@ fn openssl_csr(key: &PKey<Private>, md: MessageDigest, sans: bool) -> Vec<u8> {
 	}
 	b.sign(key, md).unwrap();
 	b.build().to_der().unwrap()
+}
+
+fn tlv(tag: u8, content: &[u8]) -> Vec<u8> {
+	let mut v = vec![tag];
+	let n = content.len();
+	if n < 128 {
+		v.push(n as u8);
+	} else if n < 256 {
+		v.extend([0x81, n as u8]);
+	} else {
+		v.extend([0x82, (n >> 8) as u8, n as u8]);
+	}
+	v.extend_from_slice(content);
+	v
+}
+
+/// correctly signed requests whose AlgorithmIdentifiers are spelled in the other legal or
+/// near-legal ways (parameters NULL where usually absent and the reverse): the signature
+/// verifies, so the parser gets past its first gate with an identifier rcgen never writes
+pub fn resigned_variants(rsa_pkcs8: &[u8]) -> Vec<(String, Vec<u8>)> {
+	let rng = ring::rand::SystemRandom::new();
+	let name = tlv(0x30, &tlv(0x31, &tlv(0x30, &[&[0x06, 0x03, 0x55, 0x04, 0x03][..], &tlv(0x0c, b"resigned")].concat())));
+	let oid = |b: &[u8]| tlv(0x06, b);
+	let null = vec![0x05u8, 0x00];
+	let ed_oid = oid(&[0x2b, 0x65, 0x70]);
+	let ec_oid = oid(&[0x2a, 0x86, 0x48, 0xce, 0x3d, 0x02, 0x01]);
+	let p256_oid = oid(&[0x2a, 0x86, 0x48, 0xce, 0x3d, 0x03, 0x01, 0x07]);
+	let rsa_oid = oid(&[0x2a, 0x86, 0x48, 0x86, 0xf7, 0x0d, 0x01, 0x01, 0x01]);
+	let ecdsa256 = oid(&[0x2a, 0x86, 0x48, 0xce, 0x3d, 0x04, 0x03, 0x02]);
+	let rsa256 = oid(&[0x2a, 0x86, 0x48, 0x86, 0xf7, 0x0d, 0x01, 0x01, 0x0b]);
+	let build = |spki_alg: Vec<u8>, key_bits: &[u8], sig_alg: Vec<u8>, sign: &dyn Fn(&[u8]) -> Vec<u8>| -> Vec<u8> {
+		let mut bits = vec![0u8];
+		bits.extend_from_slice(key_bits);
+		let spki = tlv(0x30, &[spki_alg, tlv(0x03, &bits)].concat());
+		let info = tlv(0x30, &[vec![0x02, 0x01, 0x00], name.clone(), spki, vec![0xa0, 0x00]].concat());
+		let sig = sign(&info);
+		let mut sb = vec![0u8];
+		sb.extend_from_slice(&sig);
+		tlv(0x30, &[info, sig_alg, tlv(0x03, &sb)].concat())
+	};
+	let mut out = Vec::new();
+	// Ed25519
+	if let Ok(doc) = rs::Ed25519KeyPair::generate_pkcs8(&rng) {
+		let kp = rs::Ed25519KeyPair::from_pkcs8(doc.as_ref()).unwrap();
+		use rs::KeyPair as _;
+		let pk = kp.public_key().as_ref().to_vec();
+		let sign = |m: &[u8]| kp.sign(m).as_ref().to_vec();
+		for (n, spki_alg, sig_alg) in [
+			("ed25519/spki-null-params", tlv(0x30, &[ed_oid.clone(), null.clone()].concat()), tlv(0x30, &ed_oid)),
+			("ed25519/sig-null-params", tlv(0x30, &ed_oid), tlv(0x30, &[ed_oid.clone(), null.clone()].concat())),
+			("ed25519/both-null-params", tlv(0x30, &[ed_oid.clone(), null.clone()].concat()), tlv(0x30, &[ed_oid.clone(), null.clone()].concat())),
+			("ed25519/plain", tlv(0x30, &ed_oid), tlv(0x30, &ed_oid)),
+		] {
+			out.push((n.to_string(), build(spki_alg, &pk, sig_alg, &sign)));
+		}
+	}
+	// ECDSA P-256
+	if let Ok(doc) = rs::EcdsaKeyPair::generate_pkcs8(&rs::ECDSA_P256_SHA256_ASN1_SIGNING, &rng) {
+		let kp = rs::EcdsaKeyPair::from_pkcs8(&rs::ECDSA_P256_SHA256_ASN1_SIGNING, doc.as_ref(), &rng).unwrap();
+		use rs::KeyPair as _;
+		let pk = kp.public_key().as_ref().to_vec();
+		let sign = |m: &[u8]| kp.sign(&rng, m).unwrap().as_ref().to_vec();
+		for (n, spki_alg, sig_alg) in [
+			("p256/plain", tlv(0x30, &[ec_oid.clone(), p256_oid.clone()].concat()), tlv(0x30, &ecdsa256)),
+			("p256/sig-null-params", tlv(0x30, &[ec_oid.clone(), p256_oid.clone()].concat()), tlv(0x30, &[ecdsa256.clone(), null.clone()].concat())),
+			("p256/spki-without-curve", tlv(0x30, &ec_oid), tlv(0x30, &ecdsa256)),
+			("p256/spki-null-instead-of-curve", tlv(0x30, &[ec_oid.clone(), null.clone()].concat()), tlv(0x30, &ecdsa256)),
+		] {
+			out.push((n.to_string(), build(spki_alg, &pk, sig_alg, &sign)));
+		}
+	}
+	// RSA
+	if let Ok(kp) = rs::RsaKeyPair::from_pkcs8(rsa_pkcs8) {
+		use rs::KeyPair as _;
+		let pk = kp.public_key().as_ref().to_vec();
+		let sign = |m: &[u8]| {
+			let mut sig = vec![0u8; kp.public().modulus_len()];
+			kp.sign(&rs::RSA_PKCS1_SHA256, &rng, m, &mut sig).unwrap();
+			sig
+		};
+		for (n, spki_alg, sig_alg) in [
+			("rsa/plain", tlv(0x30, &[rsa_oid.clone(), null.clone()].concat()), tlv(0x30, &[rsa256.clone(), null.clone()].concat())),
+			("rsa/spki-without-null", tlv(0x30, &rsa_oid), tlv(0x30, &[rsa256.clone(), null.clone()].concat())),
+			("rsa/sig-without-null", tlv(0x30, &[rsa_oid.clone(), null.clone()].concat()), tlv(0x30, &rsa256)),
+			("rsa/neither-null", tlv(0x30, &rsa_oid), tlv(0x30, &rsa256)),
+		] {
+			out.push((n.to_string(), build(spki_alg, &pk, sig_alg, &sign)));
+		}
+	}
+	out
 }
 
 struct Acc<'a, 'b> {
@@ -268,6 +371,47 @@ pub fn run(ctx: &mut Ctx) -> Report {
 		}
 	}
 	s.rep.exhaustive.push("OpenSSL requests: P-256/SHA-256, P-256/SHA-384, P-384/SHA-384, P-384/SHA-256, RSA/SHA-256/384/512, Ed25519, with and without requested extensions".into());
+	// --- re-wrapping: the certificationRequestInfo of an accepted request under every other
+	// signature AlgorithmIdentifier rcgen knows, with the original, an all-zero and a tiny
+	// signature: none of these proves possession of the embedded key
+	let sig_algs: Vec<Vec<u8>> = vec![
+		vec![0x30, 0x0d, 0x06, 0x09, 0x2a, 0x86, 0x48, 0x86, 0xf7, 0x0d, 0x01, 0x01, 0x0b, 0x05, 0x00],
+		vec![0x30, 0x0d, 0x06, 0x09, 0x2a, 0x86, 0x48, 0x86, 0xf7, 0x0d, 0x01, 0x01, 0x0c, 0x05, 0x00],
+		vec![0x30, 0x0d, 0x06, 0x09, 0x2a, 0x86, 0x48, 0x86, 0xf7, 0x0d, 0x01, 0x01, 0x0d, 0x05, 0x00],
+		vec![0x30, 0x0a, 0x06, 0x08, 0x2a, 0x86, 0x48, 0xce, 0x3d, 0x04, 0x03, 0x02],
+		vec![0x30, 0x0a, 0x06, 0x08, 0x2a, 0x86, 0x48, 0xce, 0x3d, 0x04, 0x03, 0x03],
+		vec![0x30, 0x0a, 0x06, 0x08, 0x2a, 0x86, 0x48, 0xce, 0x3d, 0x04, 0x03, 0x04],
+		vec![0x30, 0x05, 0x06, 0x03, 0x2b, 0x65, 0x70],
+	];
+	let mut seen_key_types: std::collections::HashSet<Vec<u8>> = Default::default();
+	let rewrap_sources: Vec<Vec<u8>> = accepted.iter().filter(|d| csr_fields(d).map(|f| seen_key_types.insert(f.spki_alg.clone())).unwrap_or(false)).cloned().collect();
+	for der in &rewrap_sources {
+		let Some(f) = csr_fields(der) else { continue };
+		for alg in &sig_algs {
+			if *alg == f.sig_alg {
+				continue;
+			}
+			for sig in [f.sig.clone(), vec![0u8; 64], vec![0x30, 0x06, 0x02, 0x01, 0x01, 0x02, 0x01, 0x01], vec![1u8]] {
+				let mut bits = vec![0u8];
+				bits.extend_from_slice(&sig);
+				let mut body = f.info.clone();
+				body.extend_from_slice(alg);
+				body.extend(tlv(0x03, &bits));
+				let m = tlv(0x30, &body);
+				s.rep.count("rewrapped_offers");
+				offer(&mut s, "rewrap", &m, true);
+			}
+		}
+	}
+	s.rep.exhaustive.push("re-wrapping: one accepted request per key type x the 6 other signature identifiers x {original, zero, tiny DER, 1-octet} signatures".into());
+	// --- correctly signed requests with the AlgorithmIdentifiers spelled differently
+	for (name, der) in resigned_variants(&s.ctx.rsa_fixture.clone()) {
+		s.rep.count("resigned_variants");
+		if let Some(pp) = offer(&mut s, &format!("resigned:{}", name), &der, true) {
+			issue_and_check(&mut s, &format!("resigned:{}", name), &der, pp, None);
+		}
+	}
+	s.rep.exhaustive.push("correctly re-signed requests: Ed25519, P-256 and RSA keys x 4 spellings of the SPKI / signature AlgorithmIdentifier parameters".into());
 	// --- mutation sweep over accepted requests (implementation vs oracle only)
 	let budget = if s.ctx.thorough { 20 } else { 5 };
 	for der in accepted.iter().take(budget) {
